@@ -301,12 +301,15 @@ def run(ctx):
     for plat, v in plats.items():
         if v["cfg"] and v["log"]:
             # quick tier: state-byte sweeps on every log version (latest cfg), wiring-byte sweeps on every cfg version
-            # (latest log); thorough: both sweeps on all 895 combinations
+            # (latest log)
             for c in v["cfg"]:
                 sweep_set[(plat, c, v["log"][-1])] = "ctor"
             for l in v["log"]:
                 sweep_set[(plat, v["cfg"][-1], l)] = "eval" if (plat, v["cfg"][-1], l) not in sweep_set else True
-    jobs = [(p, c, l, ctx.seed, True if not ctx.quick else sweep_set.get((p, c, l), False), not ctx.quick) for p, c, l in combos]
+    # thorough: both sweeps with all 256 contents on those combinations (every cfg and every log version of every platform
+    # appears in one), the full block set on all 895
+    jobs = [(p, c, l, ctx.seed, (True if (p, c, l) in sweep_set else False) if not ctx.quick else sweep_set.get((p, c, l), False),
+             not ctx.quick) for p, c, l in combos]
     evals = 0
     built = 0
     for (combo, n, fails) in core.pimap(ctx, _combo_job, jobs, chunksize=2):
@@ -336,7 +339,7 @@ def run(ctx):
     ctx.set("rule", "cases = (combination, block) facade constructions with every public read-only member evaluated, + per-byte sweeps "
             "(all 256 contents of every byte the API reads) + coupled-item sweeps + watercare/reminder inputs; distinct_nontrivial = "
             "platform x cfg x log combinations")
-    ctx.set("exhaustive", not ctx.quick)
+    ctx.set("exhaustive", False)
     ctx.sample({"combination": ["inyt", 60, 60], "blocks": "zeros, ones, 19 snapshots + complements, 4 random",
                 "sweep": "every byte read by the API x 256 contents"})
     ctx.assume("facades are built on a stand-in spa exposing the real structure/accessors of the table pair (no network); quick tier "
